@@ -72,6 +72,8 @@ def is_simple(e):
         return is_simple(e.value) and is_simple(e.slice)
     if isinstance(e, ast.UnaryOp):
         return is_simple(e.operand)
+    if isinstance(e, ast.Tuple):
+        return all(is_simple(x) for x in e.elts)
     return False
 
 
@@ -338,17 +340,20 @@ def tail_statements(stmts, make):
 
 
 class Helper:
-    __slots__ = ('comp_targets', 'node', 'params', 'defaults', 'prefix', 'result', 'assigned', 'locals', 'returns_value', 'tail', 'method')
+    __slots__ = ('comp_targets', 'node', 'params', 'defaults', 'prefix', 'result', 'assigned', 'locals', 'returns_value', 'tail', 'method', 'receiver', 'vararg', 'npos')
 
     def __init__(self, node):
         self.node = node
 
 
 def analyse_helper(fn, method=False):
-    if isinstance(fn, ast.AsyncFunctionDef) or fn.decorator_list:
+    if isinstance(fn, ast.AsyncFunctionDef):
+        return None
+    deco = [d.id if isinstance(d, ast.Name) else None for d in fn.decorator_list]
+    if deco not in ([], ['staticmethod'], ['classmethod']) or (deco and not method):
         return None
     a = fn.args
-    if a.vararg or a.kwarg:
+    if a.kwarg:
         return None
     body = list(fn.body)
     if body and isinstance(body[0], ast.Expr) and isinstance(body[0].value, ast.Constant) and isinstance(body[0].value.value, str):
@@ -367,12 +372,17 @@ def analyse_helper(fn, method=False):
         return None
     h = Helper(fn)
     pos = list(a.posonlyargs) + list(a.args)
-    if method:
-        if not pos or pos[0].arg != 'self':
+    if method and deco != ['staticmethod']:
+        if not pos or pos[0].arg != ('cls' if deco == ['classmethod'] else 'self'):
             return None
         pos = pos[1:]
-    h.method = method
+    h.method = method and deco != ['staticmethod']
+    h.receiver = 'cls' if deco == ['classmethod'] else 'self'
     h.params = [p.arg for p in pos] + [p.arg for p in a.kwonlyargs]
+    h.vararg = a.vararg.arg if a.vararg else None
+    h.npos = len(pos)
+    if h.vararg:
+        h.params.append(h.vararg)
     h.defaults = {}
     for p, d in zip(reversed(pos), reversed(a.defaults)):
         h.defaults[p.arg] = d
@@ -416,12 +426,14 @@ def bind_args(h, call):
     """-> {param: arg expression} or None"""
     if any(isinstance(x, ast.Starred) for x in call.args) or any(k.arg is None for k in call.keywords):
         return None
-    npos = len(h.node.args.posonlyargs) + len(h.node.args.args) - (1 if h.method else 0)
-    if len(call.args) > npos:
+    npos = h.npos
+    if len(call.args) > npos and not h.vararg:
         return None
     out = {}
-    for p, x in zip(h.params, call.args):
+    for p, x in zip(h.params[:npos], call.args):
         out[p] = x
+    if h.vararg:
+        out[h.vararg] = ast.Tuple(elts=list(call.args[npos:]), ctx=ast.Load())
     for k in call.keywords:
         if k.arg in out or k.arg not in h.params:
             return None
@@ -569,9 +581,13 @@ class Inliner:
         f = e.func
         if isinstance(f, ast.Name):
             return f.id if f.id in self.helpers else None
-        if isinstance(f, ast.Attribute) and isinstance(f.value, ast.Name) and f.value.id == 'self':
+        if isinstance(f, ast.Attribute) and isinstance(f.value, ast.Name) and f.value.id in ('self', 'cls'):
             k = 'self.' + f.attr
-            return k if k in self.helpers else None
+            h = self.helpers.get(k)
+            # a classmethod body speaks about `cls`: inline it only where the receiver is `cls` too (a static method does not care)
+            if h is not None and (h.receiver == f.value.id or not h.method):
+                return k
+            return None
         return None
 
     def helper_call(self, e):
@@ -619,11 +635,7 @@ class Inliner:
                 if loc is None:
                     break
                 parent, field, idx, call = loc
-                marker = ast.Name(id='_', ctx=ast.Load())
-                _put(parent, field, idx, marker)
-                rest_pure = is_pure(box.elts[0])
-                _put(parent, field, idx, call)
-                if not rest_pure:
+                if not _pure_before(box, call):  # something with side effects is evaluated before the helper would run
                     break
                 r = self.expand(call, host_names, True)
                 if r is None or r[1] is None or r[1] is Ellipsis:
@@ -660,6 +672,25 @@ class Inliner:
     def function(self, fn):
         host_names = _names(fn) | {a.arg for a in ast.walk(fn.args) if isinstance(a, ast.arg)}
         fn.body = self.block(fn.body, host_names) or [ast.Pass(lineno=fn.lineno, col_offset=fn.col_offset)]
+
+
+def _pure_before(root, target):
+    """is every sub-expression of root that Python evaluates before `target` free of side effects? (operands left to right, a call's function and
+    earlier arguments before a later argument; the enclosing calls themselves run after their arguments)"""
+    def holds(node):
+        return any(x is target for x in ast.walk(node))
+
+    def rec(node):
+        if node is target:
+            return True
+        dirty = False
+        for ch in ast.iter_child_nodes(node):
+            if holds(ch):
+                return False if dirty else rec(ch)
+            if isinstance(ch, ast.expr) and not is_pure(ch):
+                dirty = True
+        return True
+    return rec(root)
 
 
 def _put(parent, field, idx, node):
